@@ -185,9 +185,21 @@ def case_hash(obj):
     return hashlib.sha1(json.dumps(obj, sort_keys=True, default=str).encode()).hexdigest()[:16]
 
 
+def _finite(o):
+    """strict JSON: non-finite floats become strings"""
+    if isinstance(o, float):
+        return o if o == o and o not in (float("inf"), float("-inf")) else repr(o)
+    if isinstance(o, dict):
+        return {str(k): _finite(v) for k, v in o.items()}
+    if isinstance(o, (list, tuple)):
+        return [_finite(v) for v in o]
+    return o
+
+
 def write_json(path, obj):
+    obj = _finite(json.loads(json.dumps(obj, default=str)))
     os.makedirs(os.path.dirname(path), exist_ok=True)
     tmp = path + ".tmp%d" % os.getpid()
     with open(tmp, "w") as fh:
-        json.dump(obj, fh, indent=1, default=str)
+        json.dump(obj, fh, indent=1, default=str, allow_nan=False)
     os.replace(tmp, path)
